@@ -7,7 +7,7 @@
     those components (which say that all results of an iteration are out before its
     FlushAndRestart and that nothing is carried over). *)
 From Noir Require Import Base.Elem Model.Start Proofs.StartSpec Corr.Canon Corr.BinCorr.
-From Noir Require Corr.C17 Corr.C11 Corr.C07 Corr.C12 Corr.C13 Corr.C08 Corr.C16.
+From Noir Require Corr.C17 Corr.C11 Corr.C07 Corr.C12 Corr.C13 Corr.C08 Corr.C16 Corr.C09.
 From Coq Require Import NArith.
 Open Scope Z_scope.
 
@@ -18,13 +18,15 @@ Inductive case :=
 | KCount (c : C12.case)
 | KEvent (c : C13.case)
 | KJoin (c : C08.case)
-| KReorder (c : C16.case).
+| KReorder (c : C16.case)
+| KFan (c : C09.case).     (* zip / merge chains: pairs and unions are per round, stashes do not survive a FlushAndRestart *)
 
 Definition corr_ok (c : case) : bool :=
   match c with
   | KStart x => C17.corr_ok x | KBin x => C11.corr_ok x | KAgg x => C07.corr_ok x
   | KCount x => C12.corr_ok x | KEvent x => C13.corr_ok x | KJoin x => C08.corr_ok x
   | KReorder x => C16.corr_ok x
+  | KFan x => C09.corr_ok x
   end.
 
 (** per-round data multiset of a single-input Start: output round r = union over the
@@ -80,6 +82,12 @@ Definition prop_ok (c : case) : bool :=
       | C16.CSeq _ _ _ _ out => wf (strip_fb out)
       | C16.CJob _ _ _ _ _ => true      (* whole job: only the sink content is observed *)
       end && C16.prop_ok x
+  | KFan x =>
+      match x with
+      | C09.CZip _ _ _ out => wf (strip_fb out)
+      | C09.CMerge _ _ _ out => wf (strip_fb out)
+      | _ => true
+      end && C09.prop_ok x
   end.
 
 Definition known_class (c : case) : N := 0%N.
